@@ -788,5 +788,8 @@ func runSDB(ops []sOp) (res sdbRes) {
 		})
 	}
 	res.key, res.input = m.key(), m.inputClass()
+	if len(ops) == 0 {
+		res.class = "initial|"
+	}
 	return
 }
